@@ -152,6 +152,15 @@ def memS (st : St) (s : ObjId) (l : List ObjId) : Bool := l.any (fun x => surfEq
 /-- `m in materials_collection` -/
 def memM (st : St) (m : ObjId) (l : List ObjId) : Bool := l.any (fun x => matEq st m x)
 
+/-- cell.py:Cell.link_to_problem: the cell, its two containers, and (repaired code) what the cell already
+    points at — the surfaces it holds, its material, its universe — are linked to the problem -/
+def St.linkCell (st : St) (o : ObjId) : St :=
+  let cs := st.cellOf o
+  { st.updCell o (fun cs => { cs with link := true, contLinked := true }) with
+    slink := fun x => if cs.surfs.contains x then true else st.slink x,
+    mlink := fun x => if cs.mat == some x then true else st.mlink x,
+    ulink := fun x => if cs.univ == some x then true else st.ulink x }
+
 /-- numbered_object_collection.py:append on `cell.surfaces` (links the surface when the container is linked) -/
 def cellSurfAppend (st : St) (c s : ObjId) : Res :=
   let cs := st.cellOf c
@@ -166,7 +175,7 @@ def cellCompAppend (st : St) (c d : ObjId) : Res :=
   if cs.comps.any (fun x => st.cnum x == st.cnum d) then (st, some .numberConflict)
   else
     let st1 := st.updCell c (fun cs => { cs with comps := cs.comps ++ [d] })
-    (if cs.contLinked then st1.updCell d (fun ds => { ds with link := true, contLinked := true }) else st1, none)
+    (if cs.contLinked then st1.linkCell d else st1, none)
 
 /-- the loop of half_space.py:_add_new_children_to_cell over the surfaces -/
 def addSurfs (c : ObjId) : List ObjId → St → Res
@@ -347,13 +356,16 @@ def setChild (st : St) (c : ObjId) (path : List Bool) (right : Bool) (new : HS) 
         | ((st1, some e), _) => (st1, some e)
     | _ => (st, some .attributeError)
 
-/-- cell.py:material (make_prop_pointer, `None` allowed) -/
+/-- cell.py:material (make_prop_pointer, `None` allowed; validator cell.py:_link_pointee_to_problem: a cell
+    that is linked to the problem links the material) -/
 def setMaterial (st : St) (c : ObjId) (m : Option ObjId) : Res :=
-  (st.updCell c (fun cs => { cs with mat := m }), none)
+  ({ st.updCell c (fun cs => { cs with mat := m }) with
+      mlink := fun x => if (st.cellOf c).link && m == some x then true else st.mlink x }, none)
 
-/-- cell.py:universe.setter -/
+/-- cell.py:universe.setter (a cell that is linked to the problem links the universe) -/
 def setUniverse (st : St) (c : ObjId) (u : ObjId) : Res :=
-  (st.updCell c (fun cs => { cs with univ := some u }), none)
+  ({ st.updCell c (fun cs => { cs with univ := some u }) with
+      ulink := fun x => if (st.cellOf c).link && u == x then true else st.ulink x }, none)
 
 /-- universe.py:Universe.claim with a list of cells (`Cells(list)` raises on a repeated number) -/
 def claim (st : St) (u : ObjId) (cs : List ObjId) : Res :=
@@ -394,7 +406,7 @@ def St.setNum (st : St) (k : Kind) (o : ObjId) (n : Int) : St :=
 /-- mcnp_object.py:link_to_problem; for a cell cell.py:Cell.link_to_problem (its containers too) -/
 def St.setLinked (st : St) (k : Kind) (o : ObjId) : St :=
   match k with
-  | .cell => st.updCell o (fun cs => { cs with link := true, contLinked := true })
+  | .cell => st.linkCell o
   | .surface => { st with slink := upd st.slink o true } | .material => { st with mlink := upd st.mlink o true }
   | .universe => { st with ulink := upd st.ulink o true } | .transform => { st with tlink := upd st.tlink o true }
 
@@ -449,17 +461,17 @@ def sortByNum (num : ObjId → Int) (l : List ObjId) : List ObjId := l.foldr (in
 def setAdd (eq : ObjId → ObjId → Bool) (acc : List ObjId) (o : ObjId) : List ObjId :=
   if acc.any (fun x => eq o x) then acc else acc ++ [o]
 
+/-- `for cell in cells: the_set.update(items(cell))` starting from the set `acc` -/
+def collect (eq : ObjId → ObjId → Bool) (items : ObjId → List ObjId) (cells acc : List ObjId) : List ObjId :=
+  cells.foldl (fun acc c => (items c).foldl (setAdd eq) acc) acc
+
 /-- mcnp_problem.py:add_cell_children_to_problem (repaired code: the three collections are built first,
-    linked to the problem, every member is linked; a numbering conflict changes nothing) -/
+    linked to the problem, every member is linked; a numbering conflict changes nothing).  Surfaces come from
+    `cell.surfaces`, transforms from the `transform` of those surfaces, materials from `cell.material`. -/
 def addCellChildren (st : St) : Res :=
-  let surfSet := st.cells.foldl (fun acc c => (st.cellOf c).surfs.foldl (setAdd (surfEq st)) acc) st.surfaces
-  let transSet := st.cells.foldl (fun acc c =>
-      (st.cellOf c).surfs.foldl (fun a s => match st.strans s with
-        | some t => setAdd (fun x y => x == y) a t
-        | none => a) acc) st.transforms
-  let matSet := st.cells.foldl (fun acc c => match (st.cellOf c).mat with
-      | some m => setAdd (matEq st) acc m
-      | none => acc) st.materials
+  let surfSet := collect (surfEq st) (fun c => (st.cellOf c).surfs) st.cells st.surfaces
+  let transSet := collect (fun x y => x == y) (fun c => (st.cellOf c).surfs.filterMap st.strans) st.cells st.transforms
+  let matSet := collect (matEq st) (fun c => (st.cellOf c).mat.toList) st.cells st.materials
   if ¬ (surfSet.map st.snum).Nodup ∨ ¬ (matSet.map st.mnum).Nodup ∨ ¬ (transSet.map st.tnum).Nodup then
     (st, some .numberConflict)
   else
